@@ -102,7 +102,10 @@ static mzp_t *P(const char *n) {
   if (!o || !o->p) fail("unknown perm", n);
   return o->p;
 }
-static int I(const char *s) { return (int)strtol(s, NULL, 10); }
+/* value of the last "ret <int>" line (the token "ret" as an integer argument of a later call) */
+static int lastret = 0;
+static int RET(int v) { lastret = v; printf("ret %d\n", v); return v; }
+static int I(const char *s) { return !strcmp(s, "ret") ? lastret : (int)strtol(s, NULL, 10); }
 
 static int hexval(char c) {
   if (c >= '0' && c <= '9') return c - '0';
@@ -205,14 +208,14 @@ static void dispatch(int na, char **a) {
   else if (OP("_echelonize_m4ri")) { NEED(6); printf("ret %d\n", _mzd_echelonize_m4ri(M(a[1]), I(a[2]), I(a[3]), I(a[4]), atof(a[5]))); }
   else if (OP("top_echelonize_m4ri")) { NEED(3); mzd_top_echelonize_m4ri(M(a[1]), I(a[2])); }
   /* ---------------- C03 PLE / PLUQ ---------------- */
-  else if (OP("ple")) { NEED(5); printf("ret %d\n", mzd_ple(M(a[1]), P(a[2]), P(a[3]), I(a[4]))); }
-  else if (OP("pluq")) { NEED(5); printf("ret %d\n", mzd_pluq(M(a[1]), P(a[2]), P(a[3]), I(a[4]))); }
-  else if (OP("_ple")) { NEED(5); printf("ret %d\n", _mzd_ple(M(a[1]), P(a[2]), P(a[3]), I(a[4]))); }
-  else if (OP("_pluq")) { NEED(5); printf("ret %d\n", _mzd_pluq(M(a[1]), P(a[2]), P(a[3]), I(a[4]))); }
-  else if (OP("_ple_naive")) { NEED(4); printf("ret %d\n", _mzd_ple_naive(M(a[1]), P(a[2]), P(a[3]))); }
-  else if (OP("_pluq_naive")) { NEED(4); printf("ret %d\n", _mzd_pluq_naive(M(a[1]), P(a[2]), P(a[3]))); }
-  else if (OP("_ple_russian")) { NEED(5); printf("ret %d\n", _mzd_ple_russian(M(a[1]), P(a[2]), P(a[3]), I(a[4]))); }
-  else if (OP("_pluq_russian")) { NEED(5); printf("ret %d\n", _mzd_pluq_russian(M(a[1]), P(a[2]), P(a[3]), I(a[4]))); }
+  else if (OP("ple")) { NEED(5); RET(mzd_ple(M(a[1]), P(a[2]), P(a[3]), I(a[4]))); }
+  else if (OP("pluq")) { NEED(5); RET(mzd_pluq(M(a[1]), P(a[2]), P(a[3]), I(a[4]))); }
+  else if (OP("_ple")) { NEED(5); RET(_mzd_ple(M(a[1]), P(a[2]), P(a[3]), I(a[4]))); }
+  else if (OP("_pluq")) { NEED(5); RET(_mzd_pluq(M(a[1]), P(a[2]), P(a[3]), I(a[4]))); }
+  else if (OP("_ple_naive")) { NEED(4); RET(_mzd_ple_naive(M(a[1]), P(a[2]), P(a[3]))); }
+  else if (OP("_pluq_naive")) { NEED(4); RET(_mzd_pluq_naive(M(a[1]), P(a[2]), P(a[3]))); }
+  else if (OP("_ple_russian")) { NEED(5); RET(_mzd_ple_russian(M(a[1]), P(a[2]), P(a[3]), I(a[4]))); }
+  else if (OP("_pluq_russian")) { NEED(5); RET(_mzd_pluq_russian(M(a[1]), P(a[2]), P(a[3]), I(a[4]))); }
   /* ---------------- C04 TRSM ---------------- */
   else if (OP("trsm_upper_left")) { NEED(4); mzd_trsm_upper_left(M(a[1]), M(a[2]), I(a[3])); }
   else if (OP("trsm_lower_left")) { NEED(4); mzd_trsm_lower_left(M(a[1]), M(a[2]), I(a[3])); }
@@ -227,8 +230,8 @@ static void dispatch(int na, char **a) {
   else if (OP("invert_naive")) { NEED(5); setret(a[1], M(a[2]), mzd_invert_naive(M(a[2]), M(a[3]), M(a[4]))); }
   else if (OP("trtri_upper")) { NEED(2); mzd_trtri_upper(M(a[1])); }
   /* ---------------- C06 / C07 ---------------- */
-  else if (OP("solve_left")) { NEED(5); printf("ret %d\n", mzd_solve_left(M(a[1]), M(a[2]), I(a[3]), I(a[4]))); }
-  else if (OP("pluq_solve_left")) { NEED(8); printf("ret %d\n", mzd_pluq_solve_left(M(a[1]), I(a[2]), P(a[3]), P(a[4]), M(a[5]), I(a[6]), I(a[7]))); }
+  else if (OP("solve_left")) { NEED(5); RET(mzd_solve_left(M(a[1]), M(a[2]), I(a[3]), I(a[4]))); }
+  else if (OP("pluq_solve_left")) { NEED(8); RET(mzd_pluq_solve_left(M(a[1]), I(a[2]), P(a[3]), P(a[4]), M(a[5]), I(a[6]), I(a[7]))); }
   else if (OP("kernel_left_pluq")) { NEED(4); setret(a[1], NULL, mzd_kernel_left_pluq(M(a[2]), I(a[3]))); }
   /* ---------------- C08 addition and data movement ---------------- */
   else if (OP("add")) { NEED(5); setret(a[1], M(a[2]), mzd_add(M(a[2]), M(a[3]), M(a[4]))); }
